@@ -169,6 +169,16 @@ pub fn pool() -> Vec<String> {
             }
         }
     }
+    // every construct of the diagnostics catalogue (C07): each diagnostic text, label and hint the library can build is
+    // in some image, so anything built once per process and reused (a cached message, hint or table) is compared across
+    // histories that reached it in different orders
+    for e in crate::mon::c07::CATALOGUE {
+        let (t, _, _) = crate::mon::c07::unmark(e.template);
+        v.push(t);
+    }
+    for s in ["Heat the #&pan{} first.", "Use the #&pot{} and the @&flour{} again.", "Add @&flour{} to the #&bowl{}.", ">> [mode]: steps\nUse #pan and @salt here.\n", ">> [duplicate]: ref\n#&lid{} then ~&rest{5%min}"] {
+        v.push(s.to_string());
+    }
     v.sort();
     v.dedup();
     v
